@@ -179,14 +179,47 @@ func validOptionalPort(port string) bool {
 // 当语法错误时，会触发 panic，可通过 [CheckSyntax] 检测语法的正确性。
 func (hs *Hosts) Add(domain ...string) {
 	for _, d := range domain {
-		err := hs.tree.Add(strings.ToLower(d), hs.emptyHandlerFunc, nil, http.MethodGet)
+		err := hs.tree.Add(lowerDomain(d), hs.emptyHandlerFunc, nil, http.MethodGet)
 		if err != nil {
 			panic(err)
 		}
 	}
 }
 
-func (hs *Hosts) Delete(domain string) { hs.tree.Remove(strings.ToLower(domain)) }
+func (hs *Hosts) Delete(domain string) { hs.tree.Remove(lowerDomain(domain)) }
+
+// lowerDomain 将域名转换为小写
+//
+// 只转换 {} 之外的内容：参数名称以及 \\D 之类的正则表达式是区分大小写的。
+func lowerDomain(domain string) string {
+	var b strings.Builder
+	b.Grow(len(domain))
+	start, depth := 0, 0
+	for i := 0; i < len(domain); i++ {
+		switch domain[i] {
+		case '{':
+			if depth == 0 {
+				b.WriteString(strings.ToLower(domain[start:i]))
+				start = i
+			}
+			depth++
+		case '}':
+			if depth > 0 {
+				depth--
+				if depth == 0 {
+					b.WriteString(domain[start : i+1])
+					start = i + 1
+				}
+			}
+		}
+	}
+	if depth == 0 {
+		b.WriteString(strings.ToLower(domain[start:]))
+	} else {
+		b.WriteString(domain[start:])
+	}
+	return b.String()
+}
 
 func (hs *Hosts) emptyHandlerFunc() {}
 
